@@ -170,6 +170,14 @@ theorem code_watch_check :
       ["if !w.armed", "return 0, false", "if w.salt.Equal(current)", "return w.resumeFrameIdx, false",
        "w.Disarm()", "return 0, true"] := rfl
 
+/-- the connection that writes keeps autocheckpoint off for good: the PRAGMA is issued on the
+read-write pool, which holds ONE connection and never retires it (no idle limit, no lifetime) -/
+theorem code_writer_connection_never_recycled :
+    RqModel.Gen.WalCkpt.rwPoolSettings = rwPoolSettings ∧
+    RqModel.Gen.WalCkpt.autocheckpointOff = autocheckpointOff := by decide
+
+theorem code_reset_flag_on_every_outcome : RqModel.Gen.WalCkpt.walResetSites = resetSites := by decide
+
 /-- the ORDER of the steps matters: register the deferred Cancel AFTER the checkpoint call and a
 busy checkpoint leaves its (useless) file in the staging directory, to be packaged with the
 next snapshot -/
@@ -273,6 +281,17 @@ example : (run drvSalt (fresh d0) (sched ++ [.rstop 2])).dueFull = false ∧
      (doCapture drvSalt (run drvSalt (fresh d0) (sched ++ [.rstop 2]))).1.rebuilt.page 2,
      (doCapture drvSalt (run drvSalt (fresh d0) (sched ++ [.rstop 2]))).1.rebuilt.page 3,
      (doCapture drvSalt (run drvSalt (fresh d0) (sched ++ [.rstop 2]))).1.rebuilt.size) = (12, 22, 31, 3) := by
+  decide
+
+/-- **the busy attempt carries the reset, and only it can**: in `sched` the first attempt after the
+WAL reset is a busy one: it reports the reset; the attempt after it — and every later one — cannot
+(the watch disarmed when it saw the new salt). A manager that leaves the flag off failed attempts
+never reports this reset. -/
+theorem busy_attempt_carries_the_reset_witness :
+    let s7 := run drvSalt (fresh (dbOfList [10, 20])) (sched.take 7)
+    (doCapture drvSalt s7).2.err = CkErr.busy ∧ (doCapture drvSalt s7).2.reset = true ∧
+    (doCapture drvSalt (doCapture drvSalt s7).1).2.reset = false ∧
+    (doCapture drvSalt (run drvSalt (fresh (dbOfList [10, 20])) (sched ++ [.rstop 2]))).2.reset = false := by
   decide
 
 /-- the hypotheses of `reset_always_detected` (armed, reset since) are reachable -/
